@@ -47,7 +47,7 @@ def _deductive_task(arg) -> dict:
         prop = load_property(pid)
         contract = prop.contracts[idx]
         budget = 5000 if tier == 'quick' else 30000
-        rep = generate(contract, scenarios=[scen])
+        rep = contract.custom_generate(scen) if hasattr(contract, 'custom_generate') else generate(contract, scenarios=[scen])
         known = [k for k in load_known() if k.get('status') == 'open' and k.get('kind', 'deductive') == 'deductive'
                  and pid in k.get('properties', [k.get('property')])]
         obs = []
